@@ -324,7 +324,7 @@ def trace_job(arg):
             status, got, events, values = rec.evaluate(address, n_it, tol)
             hist.append(['evaluate', address, n_it, tol])
             out['evaluates'] += 1
-            case = dict(cells=cells, history=list(hist))
+            case = dict(cells=cells, arrays=arrays, history=list(hist))
             out['traces'].append(dict(iterations=n_it, events=events, case=case, kind=kind))
             if out['sample'] is None and kind == 'cyclic' and len(events) > 12:
                 out['sample'] = dict(cells=cells, history=list(hist), events=events[:14])
